@@ -24,9 +24,12 @@ def run_family(ctx, family, clauses, each=False):
     pops.sort(key=lambda c: json.dumps(c, sort_keys=True))
     for i, case in enumerate(pops):
         P = case["pop"]
-        orders = ("asc",) if ctx.quick else ("asc", "desc")
+        # load orders: ascending, descending, and (thorough) every rotation; C11 also loads each instance alone
+        orders = ("asc", "desc") if (not ctx.quick or i % 2 == 0) else ("asc",)
+        if not ctx.quick and len(P) > 2:
+            orders = orders + tuple("rot:%d" % k for k in range(1, len(P)))
         if each:
-            orders = tuple("each:%d" % x["id"] for x in P) + (() if ctx.quick else orders)
+            orders = tuple("each:%d" % x["id"] for x in P) + orders
         for order in orders:
             scen.append((P, order, (case["lay"], case["str"])))
     scripts, meta = [], {}
